@@ -24,6 +24,8 @@ func init() {
 			"verb1":  verb1Worker,
 			"verbN":  verbNWorker,
 			"ladder": ladderWorker,
+			"names":  namesWorker,
+			"tie":    tieWorker,
 			"cli":    cliWorker,
 			"dsl":    dslWorker,
 			"hof":    hofWorker,
@@ -97,7 +99,9 @@ func blocks(w *vf.Worker, idx *uint64, n, maxLen, blockSize int, label string, f
 			}
 			w.Begin(*idx)
 			b, l := base, L
-			w.Label(func() string { return fmt.Sprintf("%s: lists of length %d, numbers %d..%d", label, l, b, b+blockSize-1) })
+			w.Label(func() string {
+				return fmt.Sprintf("%s: lists of length %d, numbers %d..%d", label, l, b, b+blockSize-1)
+			})
 			for v := base; v < total && v < base+blockSize; v++ {
 				decode(v, n, list)
 				f(list)
@@ -147,7 +151,7 @@ func symNames(a []sym) []string {
 // ---------------------------------------------------------------- orchestrator
 
 func run(c *vf.Ctx) {
-	c.Rule = "every list of records (length <= L) over a key alphabet x every flag sequence (all 15 spellings for one key, all 8^2 / 8^3 comparator-kind combinations for two / three keys), plus rotation/reversal/interleave permutations of 13..64-group ladders, every array/map (length <= L) over a value alphabet x every flag string / comparator function for the DSL functions, every record shape for sort-within-records, every value list x -n/-a/--min for top, and all ordered triples of a value grid for comparator totality. A case is non-trivial when the documentation determines a strict order for at least one pair of its groups/elements (so that a wrong order is observable); distinct_nontrivial counts such cases (cases are distinct by construction)"
+	c.Rule = "every list of records (length <= L) over a key alphabet x every flag sequence (all 15 spellings for one key, all 8^2 / 8^3 comparator-kind combinations for two / three keys), plus every first-key symbol held constant over all records with the last key deciding (tie pass), every assignment of 1..3 key slots to field names (set partitions a|aa ab|aaa aab aba abb abc) x every record shape (bare / +i / +i+z / +i with key fields reversed) per record, plus rotation/reversal/interleave permutations of 13..64-group ladders, every array/map (length <= L) over a value alphabet x every flag string / comparator function for the DSL functions, every record shape for sort-within-records, every value list x -n/-a/--min for top, and all ordered triples of a value grid for comparator totality. A case is non-trivial when the documentation determines a strict order for at least one pair of its groups/elements (so that a wrong order is observable); distinct_nontrivial counts such cases (cases are distinct by construction)"
 	c.Assume("sort -b (which rewrites records by design) is checked through the command line only: expected records are the inputs with their sort fields moved to the start; field names are plain ASCII without separators")
 	c.Assume("relative order of booleans, empty values and strings among each other under numeric collation is not asserted (usage says 'nulls sort last', the implementation puts empties before strings; the property only places numbers first); strings among themselves are asserted lexical")
 	c.Assume("groups whose keys compare equal but differ in text (1, 1.0, 0x1; abc, Abc under -c) must come out in order of first appearance (usage: 'the sort is stable: records that compare equal will sort in the order they were encountered'); full record-level stability across such groups (1, 1.0, 1 -> 1, 1.0, 1) is NOT asserted, since the property keeps records of identical key text contiguous; no stability is asserted for the DSL sort functions or top (not documented)")
@@ -157,19 +161,33 @@ func run(c *vf.Ctx) {
 	c.Assume("user comparator functions returning non-integers (a-b, b-a, (a-b)*0.5, (a-b)/100, (y-x)*0.25, av-bv, ... ; help: 'returning < 0, 0, or > 0') are exercised on numbers-only arrays / maps by value over {1, 1.125, 1.25, 0.5, 2, -3, 10, 1.0}: all values and differences are exact in binary, so the sign of every result is the sign of a-b")
 	c.Assume("map keys that are hex/inf/nan spellings are excluded from the map-by-key enumeration (whether such a key counts as a number is not documented)")
 	c.Assume("comparator totality is asserted for the lexical, case-folded and numeric comparators on values exactly representable as doubles, NaN excluded; the natural comparators and the DSL <=> operator are measured and reported, not asserted")
+	c.Assume("a field named under several sort flags (sort -c a -f a) fills several key slots with the same value; a record has 'all specified sort keys' when it has every named field, whatever its width (usage: 'sorts records primarily by the first specified field, secondarily by the second field, and so on'; 'any records not having all specified sort keys will appear at end of output'); repeated names are not combined with -b")
+	c.Assume("records without an index field can be byte-identical to each other; such records are indistinguishable, so an output record is matched with the earliest unmatched input record of its text (their mutual order is unobservable)")
+	c.Assume("reflexivity (comparator(x, x) = 0, also for a separately built copy of x) is asserted for all eight sort comparators including the natural ones (a key cannot sort strictly before itself; without it later keys are never consulted); antisymmetry and transitivity of the natural comparators stay measured only")
 	c.Assume("top: rows beyond the number of available values (void fillers) are not asserted")
 
 	quick := c.Quick()
 	sets := map[string]map[string]bool{}
 	walls := map[string]float64{}
 	only := os.Getenv("VERIF_C09_ONLY") // debugging aid: comma list of pools to run
+	// worker processes: one P each (parallelism comes from the pool) and a lazy
+	// collector - a third of the CPU went into collecting short-lived records;
+	// a worker's live heap is a few MB, so GOGC=800 stays far below 100 MB per process
+	gogc := os.Getenv("VERIF_C09_GOGC")
+	if gogc == "" {
+		gogc = "800"
+	}
+	gmp := os.Getenv("VERIF_C09_GMP")
+	if gmp == "" {
+		gmp = "1"
+	}
 	pool := func(name string, shards int) *vf.PoolResult {
 		if only != "" && !strings.Contains(","+only+",", ","+name+",") {
 			c.Exhaustive = false
 			return &vf.PoolResult{Sets: map[string]map[string]bool{}}
 		}
 		t0 := time.Now()
-		r := c.RunPool(vf.PoolSpec{Worker: name, Shards: shards})
+		r := c.RunPool(vf.PoolSpec{Worker: name, Shards: shards, Env: []string{"GOMAXPROCS=" + gmp, "GOGC=" + gogc}})
 		walls[name] = time.Since(t0).Seconds()
 		return r
 	}
@@ -187,6 +205,8 @@ func run(c *vf.Ctx) {
 	merge(pool("verb1", 64))
 	merge(pool("verbN", 64))
 	merge(pool("ladder", 32))
+	merge(pool("tie", 32))
+	merge(pool("names", 64))
 	merge(pool("cli", 32))
 	merge(pool("hof", 32))
 	merge(pool("dsl", 32))
@@ -228,6 +248,33 @@ func run(c *vf.Ctx) {
 	for _, s := range symNames(alphaK1()) {
 		if c.Counters["verb1:symbol:"+s] == 0 {
 			c.Broken("alphabet symbol %q never exercised", s)
+		}
+	}
+	// every slot-to-name partition, record shape and tying symbol must have been exercised
+	for _, p := range partitions {
+		if c.Counters["names:partition:"+p] == 0 {
+			c.Broken("key-name partition %q never exercised", p)
+		}
+		if l := newLayout(p); len(l.distinct) < len(l.slotNames) && c.Counters["names:cli:partition:"+p] == 0 {
+			c.Broken("key-name partition %q never exercised through the command line", p)
+		}
+	}
+	for _, s := range shapeNames {
+		if c.Counters["names:shape:"+s] == 0 {
+			c.Broken("record shape %q never exercised", s)
+		}
+	}
+	if c.Counters["names:cases_with_a_record_having_all_keys_but_fewer_fields_than_key_slots"] == 0 {
+		c.Broken("no case with a record narrower than the key list")
+	}
+	for _, s := range symNames(alphaK1()) {
+		if s != "<absent>" && c.Counters["tie:symbol:"+s] == 0 {
+			c.Broken("tying symbol %q never exercised", s)
+		}
+	}
+	for k := kind(0); k < nKinds; k++ {
+		if c.Counters["tie:tying-kind:"+k.String()] == 0 {
+			c.Broken("comparator kind %v never exercised on a tying key", k)
 		}
 	}
 	if c.DistinctNontrivial < 2 {
